@@ -41,6 +41,17 @@ def gen_cases(rng, h, n_ops, n_str):
     dec = {'1/2': ['0.5', '.5', '0.50000'], '1/4': ['0.25', '.25'], '3/4': ['0.75', '.750'], '1/3': ['0.3333', '0.33333', '.333'],
            '2/3': ['0.6667', '0.66667', '.667'], '1/6': ['0.1667', '0.16667'], '5/6': ['0.8333', '0.83333'], '1/8': ['0.125'],
            '1/12': ['0.0833', '0.08333'], '5/24': ['0.2083', '0.20833'], '4/3': ['1.3333', '1.33333'], '5/4': ['1.25000', '1.25']}
+    # long decimals (10 to 25 digits after the point), as written by programs that print doubles in full
+    longdec = {'1/2': ['0.5000000000', '0.50000000000000000', '.5000000000000000000000000'], '1/3': ['0.3333333333', '0.33333333333333331', '0.333333333333333333333'],
+               '2/3': ['0.6666666667', '0.66666666666666663', '0.666666666666666666667'], '1/4': ['0.2500000000', '0.250000000000'],
+               '1/6': ['0.1666666667', '0.16666666666666666'], '5/6': ['0.8333333333', '0.83333333333333337'], '3/4': ['0.75000000000'],
+               '1/8': ['0.1250000000000'], '1/12': ['0.0833333333', '0.083333333333333329'], '4/3': ['1.3333333333']}
+    for fr, ds in longdec.items():
+        dec.setdefault(fr, [])
+        dec[fr] = dec[fr] + ds
+        for dsp in ds:
+            lines.append('parse\t%s 32' % F.hx('x+%s,y,z' % dsp))
+            lines.append('parse\t%s 32' % F.hx('-y,x-y,%s+z' % dsp))
     for fr, ds in dec.items():
         for dsp in ds:
             for tmpl in ('x+%s,y,z', '-y,x-y,z+%s', 'x,%s+y,z', 'x-%s,-y,z', '%s*x,y,z', 'x,y,%s*x+z'):
